@@ -41,6 +41,7 @@ def condOk : Cond → Bool
   | .header n v => canonName n && printable v
   | .url s h p q => okUrl s h p q
   | .method m => printable m
+  | .qs k v => safe k && safe v
 
 def hdrOk (h : Hdr) : Bool := h.all fun e => canonName e.1 && e.2.all printable
 
@@ -65,6 +66,7 @@ def parseCond : List String → Option (Cond × List String)
   | "header" :: n :: v :: r => do some (.header (← unhex n) (← unhex v), r)
   | "url" :: s :: h :: p :: q :: r => do some (.url (← unhex s) (← unhex h) (← unhex p) (← unhex q), r)
   | "method" :: m :: r => do some (.method (← unhex m), r)
+  | "qs" :: k :: v :: r => do some (.qs (← unhex k) (← unhex v), r)
   | _ => none
 
 def parseLeaf : List String → Option (Leaf × List String)
@@ -76,6 +78,7 @@ def parseLeaf : List String → Option (Leaf × List String)
   | "failure" :: m :: r => do some (.ver (.failure (← unhex m)), r)
   | "ping" :: s :: h :: p :: q :: r => do some (.ping (← unhex s) (← unhex h) (← unhex p) (← unhex q), r)
   | "nop" :: r => some (.nop, r)
+  | "watch" :: id :: r => do let _ ← id.toNat?; some (.nop, r)   -- harness probe verifier that never records: a no-op in reports
   | "fail" :: r => some (.fail, r)
   | _ => none
 
@@ -104,6 +107,11 @@ def parseNode : Nat → List String → Option (Cfg × List String)
         some (.filter c sc t f, r)
       else some (.filter c sc t .absent, r)
     | [] => none
+  | fuel + 1, "P" :: sc :: n :: r => do
+    let sc ← parseScope sc
+    let n ← n.toNat?
+    let (ms, r) ← parsePList fuel n r
+    some (.prio sc ms, r)
   | _, _ => none
 def parseList : Nat → Nat → List String → Option (CfgL × List String)
   | 0, _, _ => none
@@ -112,6 +120,16 @@ def parseList : Nat → Nat → List String → Option (CfgL × List String)
     let (c, r) ← parseNode fuel r
     let (l, r) ← parseList fuel n r
     some (.cons c l, r)
+/-- children of a priority.Group: `<priority> NODE`; the priority is irrelevant to the model -/
+def parsePList : Nat → Nat → List String → Option (CfgL × List String)
+  | 0, _, _ => none
+  | _ + 1, 0, r => some (.nil, r)
+  | fuel + 1, n + 1, pr :: r => do
+    let _ ← pr.toInt?
+    let (c, r) ← parseNode fuel r
+    let (l, r) ← parsePList fuel n r
+    some (.cons c l, r)
+  | _ + 1, _ + 1, [] => none
 end
 
 mutual
@@ -121,6 +139,7 @@ def cfgOk : Cfg → Bool
   | .leaf _ _ => true
   | .group _ _ ms => cfgLOk ms
   | .filter c _ t f => condOk c && cfgOk t && cfgOk f
+  | .prio _ ms => cfgLOk ms
   | .absent => true
 def cfgLOk : CfgL → Bool
   | .nil => true
@@ -147,6 +166,19 @@ def b2s (b : Bool) : String := if b then "1" else "0"
 
 def showQuery (l : List Bytes) : String :=
   " ".intercalate (s!"q {l.length}" :: l.map hex)
+
+/-- Split `n` messages of 10 tokens each. -/
+def parseMsgs : Nat → List String → Option (List Msg)
+  | 0, [] => some []
+  | 0, _ => none
+  | n + 1, toks => do
+    let m ← parseMsg (toks.take 10)
+    let ms ← parseMsgs n (toks.drop 10)
+    some (m :: ms)
+
+def showSorted (l : List Bytes) : String :=
+  let hs := ((l.map hex).toArray.qsort (· < ·)).toList
+  " ".intercalate (s!"conc {hs.length}" :: hs)
 
 def step (st : St) (toks : List String) : St × String :=
   match toks with
@@ -180,6 +212,19 @@ def step (st : St) (toks : List String) : St × String :=
   | ["qbad"] => (st, "qbad 405")
   | ["rbad"] => (st, "rbad 405")
   | "conc" :: _ => (⟨st.s.reset, false⟩, "conc")
+  | "concq" :: n :: rest =>
+    -- a concurrent batch of exchanges, linearised goroutine by goroutine: the sorted report at
+    -- quiescence, then the reset that ends the phase
+    match n.toNat? with
+    | some n =>
+      match parseMsgs n rest with
+      | some ms =>
+        if !ms.all msgOk then (⟨st.s, true⟩, "out-of-model")
+        else
+          let s' := ms.foldl State.traffic st.s
+          (⟨s'.reset, false⟩, showSorted s'.query)
+      | none => (st, "bad-op")
+    | none => (st, "bad-op")
   | _ => (st, "bad-op")
 
 end Martian.Drv.C13
